@@ -19,6 +19,7 @@ ClassVals(c, addr) ==
     [] c = "IxF"   -> {Ix(r, m, 0) : r \in {"X", "Y", "Z"}, m \in {"none", "inc", "dec"}}
                       \cup {Ix(r, "disp", q) : r \in {"Y", "Z"}, q \in 0..63}
     [] c = "IxLpm" -> {Ix("Z", "none", 0), Ix("Z", "inc", 0)}
+    [] c = "IxZinc" -> {Ix("Z", "inc", 0)}
 
 OpsOf(sig, addr) ==
   CASE Len(sig) = 0 -> { << >> }
